@@ -27,15 +27,7 @@ import (
 
 // The subcommand dispatches itself, so that main.go needs no change for it
 // (equivalent switch line for main.go: `case "spoolskel": err = spoolSkel(os.Args[2], os.Args[3])`).
-func init() {
-	if len(os.Args) >= 4 && os.Args[1] == "spoolskel" {
-		if err := spoolSkel(os.Args[2], os.Args[3]); err != nil {
-			fmt.Fprintln(os.Stderr, "extract:", err)
-			os.Exit(1)
-		}
-		os.Exit(0)
-	}
-}
+func init() { commands["spoolskel"] = spoolSkel }
 
 var spoolFuncs = []string{"storeNewMessage", "updateMetadataOnDisk", "removeFromDisk", "readDiskQueue",
 	"openMessage", "readMessageMeta", "tryRemoveDanglingFile", "discardBroken"}
